@@ -803,7 +803,18 @@ def check_native(ctx):
 
     def shown_types(b):
         out = set()
+        # a generic helper (`fn error_message<E: Display>(e: E)`) shows its type parameter: one type per instantiation
+        root_ = b.key.split("::{closure#", 1)[0]
+        gen_ = facts.items.get(root_, {}).get("generics") or []
         for bi, t in b.calls():
+            c0 = t.get("callee") or {}
+            if gen_ and c0.get("targs") and (re.search(r"Argument::<'_>::new_(display|debug)$", c0.get("path") or "") or (c0.get("path") == "std::string::ToString::to_string" and not c0.get("resolved"))):
+                for ta in c0["targs"]:
+                    ta = ta.lstrip("&")
+                    if ta in gen_:
+                        for targs_ in facts.instantiations(root_):
+                            if gen_.index(ta) < len(targs_):
+                                out.add(targs_[gen_.index(ta)].lstrip("&"))
             c = callee_of(t)
             if c and re.search(r"Argument::<'_>::new_(display|debug)$", c["path"]):
                 for ta in t["callee"].get("targs", []):
